@@ -184,7 +184,13 @@ CLAIMED = {
              "extrapolatedSmoothing() satisfies every equation of the extrapolated spec; needs nr odd — nr_odd_needed is a machine-checked "
              "counterexample for even nr, which C18.levels_admissible excludes on smoothed levels), code_exsweep_coarse_fixed (coarse nodes "
              "are returned EXACTLY, any field), code_exsweep_last_colour; tie: all stored entries and temp values of the real take class "
-             "bit-identical to the model in double, sweep results bit-identical, coarse nodes bit-identical to the input.",
+             "bit-identical to the model in double, sweep results bit-identical, coarse nodes bit-identical to the input.  GIVE STRATEGY (C07g): "
+             "GMGModel/ExSmootherGiveCode.lean models ExtrapolatedSmootherGive (all 25 leaves of the scatter assembly as accumulating stores "
+             "through the header's offset tables, both scatter kernels, the sequential sweep); theorems exgive_assemble_in_bounds, "
+             "exgive_matrices_eq_take, exgive_temp_eq_take_*, exgive_sweep_eq_take_sweep (the give code-level sweep returns the same array as "
+             "the take one — 'identical for both strategies' as a theorem) and the transfers of C07c; every hypothesis shown necessary by an "
+             "evaluated instance (nc = 2 and nt = 6 across the origin make the C++ store out of bounds — only asserts guard them; both are "
+             "unreachable through setup()).",
         design_ref="DESIGN.md section 4, C07 and R.9", note="the give variant's scatter assembly is tied to the take model's matrices within the allowance and through the sweep equations.",
         technique="Lean 4 proof (code-level model refines the relaxation spec) + bitwise correspondence of stored matrices, right-hand sides and sweeps"),
     "C02": dict(
